@@ -274,6 +274,13 @@ def exhaustive_cases(thorough: bool):
         out.append({"content": content, "bad": [], "decl_seed": len(out), "stratum": "exhaustive",
                     "queries": [["init"], ["pvals"], ["args", None, "0"], ["rhs", [["x", "3"]], "1"], ["call", "1", ["3"]],
                                 ["stoich", [["x", "3"]], "1"]]})
+    # control-flow bodies on a grid of states (oracle only)
+    for content in cg.cond_grid_contents():
+        qs = [["init"], ["args", None, "0"]]
+        for x in (-2, -1, 0, 1, 2):
+            qs += [["args", [["x", str(x)]], "0"], ["call", "0", [str(x)]]]
+        out.append({"content": content, "bad": [], "decl_seed": len(out), "stratum": "exhaustive-conditionals",
+                    "oracle_only": True, "queries": qs})
     return out
 
 
